@@ -689,6 +689,7 @@ class Facts:
             return d
         with open(kp) as fh:
             allk = json.load(fh)
+        d = self._resolve_item_moves(crate, d, (allk.get("__adts__") or {}).get(crate) or {}, (allk.get("__statics__") or {}).get(crate) or {})
         d = self._resolve_field_renames(crate, d, (allk.get("__adts__") or {}).get(crate) or {})
         known = allk.get(crate)
         if not isinstance(known, dict):
@@ -712,6 +713,16 @@ class Facts:
             if len(c) == 1 and c[0] not in taken and len([m for m in missing if m.rsplit("::", 1)[0] == par and known[m] == known[k]]) == 1:
                 pairs[c[0]] = k
                 taken.add(c[0])
+        # moved to another module: same last name segment and signature, anywhere in the crate
+        for k in missing:
+            if k in pairs.values():
+                continue
+            last = k.rsplit("::", 1)[1]
+            c = [u for u in unknown if u not in taken and u.rsplit("::", 1)[1] == last and sig(cur[u]) == known[k]
+                 and not (u.startswith("<") and " as " in u.split(">::")[0])]
+            if len(c) == 1:
+                pairs[c[0]] = k
+                taken.add(c[0])
         if not pairs:
             return d
         text = json.dumps(d)
@@ -720,6 +731,42 @@ class Facts:
             text = text.replace('"%s"' % ue, '"%s"' % ke).replace(ue + "::{closure#", ke + "::{closure#")
             self.renamed[k] = u
         return json.loads(text)
+
+    def _resolve_item_moves(self, crate, d, known_adts, known_statics):
+        """Statics and private types of the confirmed tree that are gone while exactly one new item of the same type /
+        the same field types exists: moved to another module or renamed. They get their old path back."""
+        text = None
+        cur_st = {st["path"]: st for st in d["statics"]}
+        for k, ty in known_statics.items():
+            if k in cur_st:
+                continue
+            c = [p for p, st in cur_st.items() if p not in known_statics and st["ty"] == ty]
+            same_name = [p for p in c if p.rsplit("::", 1)[1] == k.rsplit("::", 1)[1]]
+            c = same_name or c
+            if len(c) == 1:
+                text = text or json.dumps(d)
+                text = text.replace(json.dumps(c[0])[1:-1], json.dumps(k)[1:-1])
+                self.renamed[k] = c[0]
+        if text:
+            d = json.loads(text)
+            text = None
+        cur_adt = {a["path"]: a for a in d["adts"]}
+        for k, kf in known_adts.items():
+            if k in cur_adt:
+                continue
+            want = [t.replace(k, "\0") for _, t in kf]
+            c = []
+            for p, a in cur_adt.items():
+                if p in known_adts or len(a["variants"]) != 1 or a.get("reachable") and a.get("pub"):
+                    continue
+                if [x["ty"].replace(p, "\0") for x in a["variants"][0]["fields"]] == want and want:
+                    c.append(p)
+            if len(c) == 1:
+                text = text or json.dumps(d)
+                # whole-path occurrences only: followed by a non-identifier character
+                text = re.sub(re.escape(json.dumps(c[0])[1:-1]) + r"(?![A-Za-z0-9_])", json.dumps(k)[1:-1].replace("\\", "\\\\"), text)
+                self.renamed[k] = c[0]
+        return json.loads(text) if text else d
 
     def _resolve_field_renames(self, crate, d, known_adts):
         """A private field of a struct of the confirmed tree that is gone, while the struct has exactly one new field of the
